@@ -184,6 +184,8 @@ const prelude = `(set-option :produce-models true)
 (declare-fun errClean (Int) Bool)
 (declare-fun errMsg (Int) Str)
 (declare-fun urlStr (Int) Str)
+(declare-fun ix (Int Int) Int)
+(assert (forall ((o Int) (i Int)) (! (= (ix o i) (+ o i)) :pattern ((ix o i)))))
 (define-fun validI ((x Iface)) Bool (and ((_ is mkI) x) (=> ((_ is pRef) (ipay x)) (not (= (pref (ipay x)) 0)))))
 `
 
@@ -227,4 +229,13 @@ func subT(a, b string) string {
 		}
 	}
 	return app("-", a, b)
+}
+
+// ixT: absolute index of element i of a slice with offset off. An uninterpreted symbol (defined by an axiom)
+// keeps arithmetic out of quantifier triggers.
+func ixT(off, i string) string {
+	if off == "0" {
+		return i
+	}
+	return app("ix", off, i)
 }
